@@ -307,7 +307,7 @@ theorem matchEnd_lay (ei : Str) (hei : ∀ x ∈ ei, isSpace x = true) :
 
 theorem openBlock_lay (L : Layout) (hL : WfLayout L) (body : List Str) (n : Nat) :
     openBlock ((L.startIndent ++ str "/**") :: (body ++ [L.endIndent ++ str "*/"])) n =
-      .ok (some { lines := body, hdr := { line := n, codeBefore := [], codeAfter := [] } }, []) := by
+      .ok (some { lines := body, endText := none, hdr := { line := n, codeBefore := [], codeAfter := [] } }, []) := by
   unfold openBlock
   simp only []
   rw [matchStart_lay L.startIndent (fun x hx => (hL.startIndent x hx).1)]
